@@ -149,3 +149,42 @@ Proof.
   - intros H. destruct (xml_safe_string s) eqn:E; [|reflexivity]. now apply safestrdup_id in E.
   - intros E H. rewrite <- H in E. now rewrite safestrdup_safe in E.
 Qed.
+
+(* ---------- attribute lists ---------- *)
+Definition attr_name_ok (n : list N) : bool := forallb is_attr_name_char n.
+
+Lemma span_name_app n rest : attr_name_ok n = true ->
+  (match rest with c :: _ => is_attr_name_char c = false | [] => True end) ->
+  span_name (n ++ rest) = (n, rest).
+Proof.
+  unfold attr_name_ok. induction n as [|c n IH]; intros Hn Hr.
+  - destruct rest as [|c r]; [reflexivity|]. cbn [app span_name]. now rewrite Hr.
+  - cbn [forallb] in Hn. apply andb_prop in Hn. destruct Hn as [Hc Hn].
+    cbn [app span_name]. rewrite Hc, IH by assumption. reflexivity.
+Qed.
+
+Lemma skip_blanks_nonblank c tl : is_blank c = false -> skip_blanks (c :: tl) = c :: tl.
+Proof. intros H. cbn [skip_blanks]. now rewrite H. Qed.
+
+Lemma name_char_not_blank c : is_attr_name_char c = true -> is_blank c = false.
+Proof.
+  unfold is_attr_name_char, is_blank. intros H.
+  destruct (c =? 32) eqn:E1; [apply N.eqb_eq in E1; subst; discriminate|].
+  destruct (c =? 9) eqn:E2; [apply N.eqb_eq in E2; subst; discriminate|].
+  destruct (c =? 10) eqn:E3; [apply N.eqb_eq in E3; subst; discriminate|].
+  destruct (c =? 13) eqn:E4; [apply N.eqb_eq in E4; subst; discriminate|]. reflexivity.
+Qed.
+
+(* one printed attribute ` name="escaped"` followed by anything is read back, and the scan resumes after the blanks *)
+Lemma next_attr_print n v rest : attr_name_ok n = true -> Forall (fun b => b <> 0) v ->
+  next_attr (32 :: n ++ lit "=""" ++ escaped_value v ++ 34 :: rest) = Some (n, v, skip_blanks rest).
+Proof.
+  intros Hn Hv. unfold next_attr.
+  assert (Hs : skip_blanks (32 :: n ++ lit "=""" ++ escaped_value v ++ 34 :: rest) = n ++ lit "=""" ++ escaped_value v ++ 34 :: rest).
+  { cbn [skip_blanks]. change (is_blank 32) with true. cbv iota.
+    destruct n as [|c n]; [reflexivity|]. cbn [app]. apply skip_blanks_nonblank, name_char_not_blank.
+    unfold attr_name_ok in Hn. cbn [forallb] in Hn. now apply andb_prop in Hn. }
+  rewrite Hs. change (lit "=""") with [61; 34]. rewrite span_name_app; [|exact Hn|reflexivity].
+  change (lit "=""") with [61; 34]. cbn [app]. cbv beta iota.
+  rewrite unescape_escape_l by exact Hv. reflexivity.
+Qed.
